@@ -47,6 +47,10 @@ func main() {
 		cmdPubSub(os.Args[2:])
 	case "wire":
 		cmdWire(os.Args[2:])
+	case "repl":
+		cmdRepl(os.Args[2:])
+	case "replrestore":
+		cmdReplRestore(os.Args[2:])
 	case "evict":
 		cmdEvict(os.Args[2:])
 	default:
